@@ -18,8 +18,11 @@ for d in sorted(glob.glob(f"{V}/scratch/seeded_in2/C??/[C-F]")):
     dst = f"{V}/seeded/{mid}"
     os.makedirs(dst, exist_ok=True)
     for fn in os.listdir(d):
-        if fn.startswith(("patch", "demo", "README")) and not fn.endswith(".log") and os.path.isfile(os.path.join(d, fn)):
-            shutil.copy(os.path.join(d, fn), dst)
+        src_ = os.path.join(d, fn)
+        if fn.startswith(("patch", "demo", "README", "harness")) and not fn.endswith(".log") and os.path.isfile(src_):
+            shutil.copy(src_, dst)
+        elif fn == "harness" and os.path.isdir(src_):       # small stand-alone cargo package some demonstrations build
+            shutil.copytree(src_, os.path.join(dst, fn), dirs_exist_ok=True, ignore=shutil.ignore_patterns("target"))
     old = json.load(open(os.path.join(dst, "meta.json"))) if os.path.exists(os.path.join(dst, "meta.json")) else {}
     meta = {"id": mid, "property": pid, "origin": "fresh sub-agent (round 2) given only the property text, one-line descriptions of the two earlier seeds to avoid, and a scratch worktree",
             "needs_to_manifest": NEEDS.get(mid, {}).get("needs", ""),
